@@ -161,6 +161,37 @@ func solve(o *Obligation, dir string, timeout int, keep bool) *SolveResult {
 	}
 	launch(solvers[0])
 	pending := 1
+	// most obligations are decided by the first solver within a fraction of a second: give it a head start before
+	// the weakened variants (3-4 more solver processes per obligation) are launched
+	var early *ans
+	select {
+	case a := <-ch:
+		pending--
+		early = &a
+	case <-time.After(300 * time.Millisecond):
+	}
+	if early != nil && (early.first == "unsat" || early.first == "sat") {
+		res := &SolveResult{Status: "unknown", Nodes: nodes, Solver: early.sp.name, Ms: early.d.Milliseconds()}
+		if o.Goal == nil {
+			if early.first == "sat" {
+				res.Status = "nonvacuous"
+			} else {
+				res.Status = "vacuous"
+			}
+		} else if early.first == "unsat" {
+			res.Status = "proved"
+		} else {
+			res.Status = "failed"
+			res.Model = early.txt
+		}
+		if !keep && res.Status != "failed" {
+			cleanup(base)
+		} else {
+			res.Query = base + "." + early.sp.name + ".smt2"
+		}
+		res.Raw = early.sp.name + ": " + firstLines(early.txt, 3)
+		return res
+	}
 	// lean variant: drop quantified nonlinear hypotheses that stem from other contract clauses than the goal's
 	if o.Goal != nil {
 		var lean []*Term
@@ -258,6 +289,9 @@ func solve(o *Obligation, dir string, timeout int, keep bool) *SolveResult {
 	defer timer.Stop()
 	res := &SolveResult{Status: "unknown", Nodes: nodes}
 	var raws []string
+	if early != nil {
+		raws = append(raws, early.sp.name+": "+firstLines(early.txt, 3))
+	}
 	want := "unsat"
 	if o.Goal == nil {
 		want = "sat"
